@@ -143,6 +143,8 @@ pub struct Ctx {
     pub assumptions: Mutex<Vec<String>>,
     pub extra: Mutex<BTreeMap<String, Value>>,
     pub exhaustive: AtomicBool,
+    /// distinct non-trivial cases counted in bulk (complete enumerations: one per enumerated value)
+    pub bulk_distinct: AtomicU64,
     pub stop: AtomicBool,
     pub strict: bool,
 }
@@ -167,6 +169,7 @@ impl Ctx {
             assumptions: Mutex::new(vec![]),
             extra: Mutex::new(BTreeMap::new()),
             exhaustive: AtomicBool::new(false),
+            bulk_distinct: AtomicU64::new(0),
             stop: AtomicBool::new(false),
             strict: false,
         }
@@ -189,9 +192,14 @@ impl Ctx {
     pub fn record<C: Serialize>(&self, label: &str, case: &C, out: &Outcome) -> Vec<Viol> {
         self.evaluations.fetch_add(out.weight.max(1), Ordering::Relaxed);
         {
+            // one count per case and class
+            let mut seen: Vec<&String> = vec![];
             let mut cl = self.classes.lock().unwrap();
             for c in &out.classes {
-                *cl.entry(c.clone()).or_default() += 1;
+                if !seen.contains(&c) {
+                    seen.push(c);
+                    *cl.entry(c.clone()).or_default() += 1;
+                }
             }
         }
         if let Some(r) = &out.inconclusive {
@@ -257,7 +265,7 @@ impl Ctx {
                     let cfg = Config {
                         cases: cases_per_thread,
                         failure_persistence: None,
-                        max_shrink_iters: 600,
+                        max_shrink_iters: 1500,
                         max_global_rejects: 100_000,
                         ..Config::default()
                     };
@@ -397,7 +405,7 @@ impl Ctx {
             }
         }
         let inconc = self.inconclusive.lock().unwrap();
-        let distinct = self.distinct.lock().unwrap().len();
+        let distinct = self.distinct.lock().unwrap().len() as u64 + self.bulk_distinct.load(Ordering::Relaxed);
         let mut samples: Vec<Value> = vec![];
         for (_k, v) in self.samples.lock().unwrap().iter() {
             for s in v.iter().take(2) {
